@@ -47,6 +47,7 @@ fn err2(src: &str) {
 }
 
 /// valid Luau, syntax error in Lua 5.1
+#[allow(dead_code)]
 fn luau_only(src: &str, expected: &str) {
     assert_eq!(sx(src, Luau), expected, "for {:?}", src);
     err(src, Lua51);
